@@ -120,17 +120,22 @@ def run_hostonly(chk, repo, rule='R13.9'):
                 continue
             nseq += 1
             try:
-                it = make_interp(repo)
                 st0 = state_atoms('0')
-                s = build(repo, it, st0, use_ctl, True)
-                full_init(it, s)
                 final = dict(st0)
-                for i, mname in enumerate(seq):
-                    key, fn_ = MUTATORS[mname]
-                    newv = X.atom(f'{key}{i + 1}', 'pos' if key in ('e', 'a', 'Q', 'dt') else 'real')
-                    fn_(it, s, newv)
-                    final[key] = newv
-                got = exposed(s)
+
+                def history(fork, seq=seq, st0=st0, final=final):
+                    it = make_interp(repo)
+                    it.hooks['fork'] = fork
+                    s = build(repo, it, st0, use_ctl, True)
+                    full_init(it, s)
+                    for i, mname in enumerate(seq):
+                        key, fn_ = MUTATORS[mname]
+                        newv = X.atom(f'{key}{i + 1}', 'pos' if key in ('e', 'a', 'Q', 'dt') else 'real')
+                        fn_(it, s, newv)
+                        final[key] = newv
+                    return exposed(s)
+                from .c13 import explore_history
+                got, path_label = explore_history(history)
                 it2 = make_interp(repo)
                 sf = build(repo, it2, final, use_ctl, True)
                 full_init(it2, sf)
@@ -145,7 +150,7 @@ def run_hostonly(chk, repo, rule='R13.9'):
                     bad.append(f'{q}: {"unset" if a_ is None else "set"} after the sequence, {"unset" if b_ is None else "set"} on a fresh system'); continue
                 if not d.equal(a_, b_):
                     bad.append(f'{q.lstrip("_")} differs from a fresh system in the final state')
-            chk.ob(rule, f'{model}: after {" ; ".join(seq)} the host\'s tidal quantities and the orbit\'s cached da/dt, de/dt, dn/dt equal those of a fresh system in the final state', not bad, '; '.join(bad[:4]),
+            chk.ob(rule, f'{model}: after {" ; ".join(seq)} the host\'s tidal quantities and the orbit\'s cached da/dt, de/dt, dn/dt equal those of a fresh system in the final state', not bad, '; '.join(bad[:4]) + (path_label if bad else ''),
                    mw.rel(), key=f'{rule}|{model}|{"+".join(seq)}', method='abstract object graph (real world_signature_to_index) + GF(p^2) PIT')
     chk.note_analysed('host-only mutator sequences', nseq)
     return nseq
